@@ -171,9 +171,9 @@ def main(tier: str, seed: int) -> int:
         h = fam['hs'][(i // len(hists)) % len(fam['hs'])]
         kc = config_lattice.to_kaisa(c)
         kc.update(fam['hp'])
-        kc['model'] = ['mlp3', 'mixb', 'conv', 'mlp2nb', 'mlp2'][i % 5]
+        kc['model'] = ['mlp3', 'mixb', 'conv', 'mlp2nb', 'mlp2', 'eq'][i % 6]
         kc.update([dict(), dict(param_dtype='float64', inv_dtype='float32'),
-                   dict(inv_dtype='float64')][(i // 5) % 3])
+                   dict(inv_dtype='float64')][(i // 6) % 3])
         cases.append({'cfg': kc, 'h': h, 'seed': seed * 100 + i})
     outs = pmap(run_case, cases)
     nsteps = 0
